@@ -568,6 +568,17 @@ func (s *Stage) Recover() {
 		s.toCache(finalFile, stateValidated)
 		parked = append(parked, finalFile)
 	}
+	// ... and so is every file that still has to be validated: a new version of
+	// a predecessor that was received completely before we went down is
+	// `logged` - the earlier version's record - until a validator gets to it
+	for _, file := range validate {
+		finalFile := s.partialToFinal(file)
+		if known := s.fromCache(finalFile.path); known != nil &&
+			known.state >= stateFinalized && known.hash == finalFile.hash {
+			continue // the leftover of a duplicate: dealt with by the validators below
+		}
+		s.toCache(finalFile, stateReceived)
+	}
 	for _, finalFile := range parked {
 		go s.finalizeQueue(finalFile)
 	}
